@@ -26,22 +26,24 @@ VARIABLES prefix,   \* the writer's prefix
 vars == <<prefix, fed, sink, lineOpen, budget, ret, failed, hist>>
 
 \* ---------- declarative one-shot definition (indent.String / Bytes) --------
-RECURSIVE IndentOf(_, _, _)
+\* concatenation of pieces[lo..hi], halving (long texts: depth log n)
+RECURSIVE CatRange(_, _, _)
+CatRange(pieces, lo, hi) ==
+  IF lo > hi THEN <<>>
+  ELSE IF lo = hi THEN pieces[lo]
+  ELSE LET m == (lo + hi) \div 2 IN CatRange(pieces, lo, m) \o CatRange(pieces, m + 1, hi)
+\* does position i of s start a line?  (atStart: the first byte does)
+StartsLine(s, i, atStart) == IF i = 1 THEN atStart ELSE s[i - 1] = NL
 IndentOf(p, s, atStart) ==      \* atStart: the next byte starts a line
-  IF s = <<>> THEN <<>>
-  ELSE LET c == Head(s)
-           pre == IF atStart THEN p ELSE <<>>
-       IN pre \o <<c>> \o IndentOf(p, Tail(s), c = NL)
+  CatRange([i \in 1..Len(s) |-> (IF StartsLine(s, i, atStart) THEN p ELSE <<>>) \o <<s[i]>>], 1, Len(s))
 
 Concat(ss) == FoldLeft(LAMBDA a, b : a \o b, <<>>, ss)
 
 \* ---------- operational definition, shaped like iw.Write -------------------
 \* what one Write hands to the underlying writer: <<byte, fromCaller>> pairs
-RECURSIVE Joined(_, _, _)
 Joined(p, c, open) ==
-  IF c = <<>> THEN <<>>
-  ELSE LET pre == IF open THEN <<>> ELSE [i \in 1..Len(p) |-> <<p[i], FALSE>>]
-       IN pre \o << <<Head(c), TRUE>> >> \o Joined(p, Tail(c), Head(c) # NL)
+  LET pre == [i \in 1..Len(p) |-> <<p[i], FALSE>>]
+  IN CatRange([i \in 1..Len(c) |-> (IF StartsLine(c, i, ~open) THEN pre ELSE <<>>) \o << <<c[i], TRUE>> >>], 1, Len(c))
 
 CallerCount(j, k) == Cardinality({i \in 1..k : j[i][2]})
 Bytes(j, k) == [i \in 1..k |-> j[i][1]]
@@ -79,11 +81,9 @@ TypeOK == /\ ret.n \in Nat /\ ret.err \in BOOLEAN /\ lineOpen \in BOOLEAN
 ChunkIndependent == ~failed => sink = IndentOf(prefix, Concat(fed), TRUE)
 \* the count is the number of caller bytes that reached the underlying writer
 \* the one-shot rendering with every byte marked "written by the caller?"
-RECURSIVE IndentMarked(_, _, _)
 IndentMarked(p, s, atStart) ==
-  IF s = <<>> THEN <<>>
-  ELSE LET pre == IF atStart THEN [i \in 1..Len(p) |-> FALSE] ELSE <<>>
-       IN pre \o <<TRUE>> \o IndentMarked(p, Tail(s), Head(s) = NL)
+  LET pre == [i \in 1..Len(p) |-> FALSE]
+  IN CatRange([i \in 1..Len(s) |-> (IF StartsLine(s, i, atStart) THEN pre ELSE <<>>) \o <<TRUE>>], 1, Len(s))
 Truthful ==
   /\ fed # <<>> => ret.n <= Len(fed[Len(fed)])
   /\ ~failed /\ fed # <<>> => ret.n = Len(fed[Len(fed)]) /\ ~ret.err
